@@ -1,7 +1,7 @@
 """C13 - backend failures are contained: 451, data channel closed, session lives on."""
 import random
 
-from harness import corecheck, gen, report
+from harness import corecheck, gen, mc, report
 
 PROBE = [["send", 1, "PWD"]] + gen.transfer(1, "RETR", "d/g", connect="after") + [["send", 1, "MLST d"]]
 OBS_A = [["connect", 2], ["send", 2, "USER u2"], ["send", 2, "PWD"]]
@@ -40,6 +40,7 @@ def dev_cfg(pool):
 
 def run(tier, seed):
     chk = report.Check("C13", tier, seed, level="model_checking")
+    mc.into(chk, mc.run_config("MC_Fault_q" if tier == "quick" else "MC_Fault_t", "MC_Seq", must_cover=("ReplyEv", "WorkerStep", "ServerStep")))
     rng = random.Random(seed)
     fam = families(tier, rng)
     backends = ["memory"] if tier == "quick" else ["memory", "path", "async"]
